@@ -87,40 +87,46 @@ P_NewRing(depth) ==     \* IoUring::new succeeded; depth = params().sq_entries()
     /\ rem' = Append(rem, 0)
     /\ UNCHANGED <<now, fh, ops, cqs, flags, ended, endBufs>>
 
-\* SubmissionQueue::push of the entry that gets user_data Len(ops)+1.
+\* SubmissionQueue::push of the entry number Len(ops)+1 (entries are numbered in
+\* push order; the number is the consumer's own bookkeeping).  tag = the user_data
+\* the consumer put on it - usually unique, but a consumer may tag several entries
+\* alike (the driver does so only for entries that are copies of each other: same
+\* ring, kind, handle, offset, payload).
 \* kind in {"read","write","fsync","cancel"}; f = file (0 for cancel); tgt =
 \* target user_data of a cancel (0 otherwise); bad = an unsupported flag is set;
 \* llo/lhi = latency bounds configured for this entry (0 for cancel / bad);
 \* len = length of the read buffer (0 otherwise); ok = push returned Ok.
-P_Push(r, kind, f, tgt, bad, llo, lhi, len, ok) ==
+P_Push(r, tag, kind, f, tgt, bad, llo, lhi, len, ok) ==
     /\ ops' = Append(ops,
-          [ring |-> r, kind |-> kind, f |-> f,
+          [ring |-> r, tag |-> tag, kind |-> kind, f |-> f,
            gen |-> IF f \in 1..Len(fh) THEN fh[f].gen ELSE 0,
            hopen |-> IF f \in 1..Len(fh) THEN fh[f].open ELSE FALSE,
            tgt |-> tgt, bad |-> bad, llo |-> llo, lhi |-> lhi, len |-> len,
            full |-> (~Alive(r)) \/ Occupancy(r) >= rmeta[r].depth,
            st |-> IF ok THEN "sq" ELSE "rej",
-           subAt |-> -1, tgtOut |-> FALSE, cto |-> -1])
+           subAt |-> -1, tgtOut |-> FALSE, tcands |-> {}, cto |-> -1])
     /\ UNCHANGED <<now, rmeta, fh, cqs, rem, flags, ended, endBufs>>
 
-\* Was the target of cancel c outstanding on the same ring when c was processed?
-\* (submitted earlier and its completion not yet popped, or earlier in this batch)
-TgtOutAtSubmit(r, c) ==
-    LET t == ops[c].tgt IN
-    /\ t \in Uds /\ ops[t].ring = r
-    /\ \/ ops[t].st = "pend"
-       \/ ops[t].st = "sq" /\ t < c
+\* The entries carrying the target user_data of cancel c that were outstanding on
+\* the same ring when c was processed (submitted earlier and completion not yet
+\* popped, or earlier in this batch).  A cancel takes out at most one of them.
+TgtCands(r, c) ==
+    {t \in Uds : /\ ops[t].tag = ops[c].tgt /\ ops[t].ring = r
+                 /\ \/ ops[t].st = "pend"
+                    \/ ops[t].st = "sq" /\ t < c}
+TgtOutAtSubmit(r, c) == TgtCands(r, c) # {}
 
 EffCancel(c) == ops[c].kind = "cancel" /\ ~ops[c].bad
 
 \* Submitter::submit on ring r returned Ok: the whole SQ is handed over, in push order.
 P_Submit(r) ==
     /\ LET batch == {u \in Uds : ops[u].ring = r /\ ops[u].st = "sq"}
-           hit   == {ops[c].tgt : c \in {c \in batch : EffCancel(c) /\ TgtOutAtSubmit(r, c)}}
+           hit   == UNION {TgtCands(r, c) : c \in {c \in batch : EffCancel(c)}}
        IN ops' = [u \in Uds |->
             LET o1 == IF u \in batch
                       THEN [ops[u] EXCEPT !.st = "pend", !.subAt = now,
-                                          !.tgtOut = EffCancel(u) /\ TgtOutAtSubmit(r, u)]
+                                          !.tgtOut = EffCancel(u) /\ TgtOutAtSubmit(r, u),
+                                          !.tcands = IF EffCancel(u) THEN TgtCands(r, u) ELSE {}]
                       ELSE ops[u]
             IN IF u \in hit /\ o1.cto < 0 THEN [o1 EXCEPT !.cto = now] ELSE o1]
     /\ UNCHANGED <<now, rmeta, fh, cqs, rem, flags, ended, endBufs>>
@@ -150,9 +156,21 @@ P_Readable(r, ok) ==
 \*   expdata  buffer the twin's read filled
 \*   feq      contents of every file (read through the synchronous shim) are
 \*            equal on the filesystem under test and on the twin after this pop
-P_Cqe(r, ud, res, data, exp, expdata, feq) ==
+\* The completion carries only the user_data `tag`.  It is attributed to the
+\* lowest-numbered entry with that tag that is owed a completion on this ring
+\* (entries tagged alike are copies of each other, so the choice is immaterial);
+\* if there is none, to the latest entry with that tag at all (then CqeOnce fails).
+Attribute(r, tag) ==
+    LET owed == {u \in Uds : ops[u].tag = tag /\ ops[u].ring = r /\ ops[u].st = "pend"}
+        any  == {u \in Uds : ops[u].tag = tag}
+    IN IF owed # {} THEN CHOOSE u \in owed : \A v \in owed : u <= v
+       ELSE IF any # {} THEN CHOOSE u \in any : \A v \in any : u >= v
+       ELSE 0
+
+P_Cqe(r, tag, res, data, exp, expdata, feq) ==
+    LET ud == Attribute(r, tag) IN
     /\ cqs' = Append(cqs,
-          [ring |-> r, ud |-> ud, res |-> res, at |-> now, data |-> data,
+          [ring |-> r, ud |-> ud, tag |-> tag, res |-> res, at |-> now, data |-> data,
            exp |-> exp, expdata |-> expdata, feq |-> feq,
            stb |-> IF ud \in Uds THEN ops[ud].st ELSE "unknown",
            sameRing |-> ud \in Uds /\ ops[ud].ring = r,
@@ -238,10 +256,19 @@ SyncUpper == flags.syncUp
 \* visible, and it does resolve once one is due
 ReadableOk == flags.readable
 
-\* a cancellation error is justified by a cancel that found the entry outstanding
-Backed(u) ==
-    \E c \in Uds : /\ EffCancel(c) /\ ops[c].tgt = u /\ ops[c].tgtOut
-                   /\ \A k \in CqOf(c) : cqs[k].res \in {0, ECANCELED}
+\* a cancellation error is justified by a cancel, on that ring, that found that
+\* user_data outstanding (entries tagged alike are copies: which of them the
+\* history attributes the error to is immaterial)
+Backed(k) ==
+    \E c \in Uds : /\ EffCancel(c) /\ ops[c].tgt = cqs[k].tag /\ ops[c].ring = cqs[k].ring /\ ops[c].tgtOut
+                   /\ \A j \in CqOf(c) : cqs[j].res \in {0, ECANCELED}
+\* ... and one cancel takes out one entry: on every ring, no more cancellation
+\* errors for a user_data than cancels that found that user_data outstanding
+CancelCount ==
+    \A k \in CqIdx : (cqs[k].stb = "pend" /\ cqs[k].res = ECANCELED) =>
+        LET r == cqs[k].ring  t == cqs[k].tag IN
+        Cardinality({j \in CqIdx : cqs[j].ring = r /\ cqs[j].tag = t /\ cqs[j].stb = "pend" /\ cqs[j].res = ECANCELED})
+          <= Cardinality({c \in Uds : EffCancel(c) /\ ops[c].ring = r /\ ops[c].tgt = t /\ ops[c].tgtOut})
 
 \* "the result ... of each read, write and fsync equal those of the same
 \* operation performed through the synchronous file API"; "a cancelled operation
@@ -251,7 +278,7 @@ Backed(u) ==
 ResultOk ==
     \A k \in CqIdx : cqs[k].stb = "pend" =>
         LET c == cqs[k]  o == ops[c.ud] IN
-        \/ /\ c.res = ECANCELED /\ Backed(c.ud)
+        \/ /\ c.res = ECANCELED /\ Backed(k)
            /\ (o.kind = "read" => c.data = Pristine(o.len))       \* buffer not written
         \/ /\ c.res # ECANCELED
            /\ IF o.bad THEN c.res = EINVAL /\ (o.kind = "read" => c.data = Pristine(o.len))
@@ -259,12 +286,16 @@ ResultOk ==
               ELSE IF c.closed THEN c.res = EBADF /\ (o.kind = "read" => c.data = Pristine(o.len))
               ELSE c.res = c.exp /\ (o.kind = "read" => c.data = c.expdata)
 
-\* a cancel that reports success made its target complete with the cancellation error
+\* a cancel that reports success made an entry with the target user_data complete
+\* with the cancellation error (if every such entry on the ring has completed,
+\* one of the completions is the cancellation error)
 CancelPairs ==
     \A k \in CqIdx :
         LET c == cqs[k] IN
         (c.stb = "pend" /\ EffCancel(c.ud) /\ c.res = 0) =>
-            \A j \in CqOf(ops[c.ud].tgt) : cqs[j].stb = "pend" => cqs[j].res = ECANCELED
+            LET t == ops[c.ud].tgt IN
+            \/ \E j \in CqIdx : cqs[j].ring = c.ring /\ cqs[j].tag = t /\ cqs[j].stb = "pend" /\ cqs[j].res = ECANCELED
+            \/ \E u \in Uds : ops[u].ring = c.ring /\ ops[u].tag = t /\ ops[u].st \in {"pend", "lost"}
 
 \* "... and filesystem effect ... equal those of the same operation performed
 \* through the synchronous file API" (the twin executes the operation exactly
@@ -288,6 +319,6 @@ BufferUntouched ==
                 \E i \in 1..Len(endBufs) : endBufs[i].ud = u /\ endBufs[i].data = Pristine(ops[u].len)
 
 PropInv ==
-    /\ CqeOnce /\ SyncLower /\ Delivers /\ NotEarly /\ SyncUpper /\ ResultOk /\ CancelPairs
+    /\ CqeOnce /\ SyncLower /\ Delivers /\ NotEarly /\ SyncUpper /\ ResultOk /\ CancelPairs /\ CancelCount
     /\ EffectOk /\ PushFull /\ DeadRingSilent /\ BufferUntouched /\ ReadableOk
 =============================================================================
